@@ -81,6 +81,7 @@ struct conn {
   int rep;                  /* a reply (or 100 Continue) is on its way */
   char rkind;
   int repdone;              /* the reply was completed (callback) */
+  int started;              /* the library has reported the connection as started */
   struct MHD_Connection *mc;
 };
 static struct conn conns[MAXC];
@@ -149,7 +150,7 @@ static void notify_conn (void *cls, struct MHD_Connection *mc, void **socket_con
       c = (int) ntohs (((const struct sockaddr_in *) ci->client_addr)->sin_port) - 1000;
     if (c < 0 || c >= MAXC) c = -1;
     *socket_context = (void *) (intptr_t) (c + 1);
-    if (c >= 0) conns[c].mc = mc;
+    if (c >= 0) { conns[c].mc = mc; conns[c].started = 1; }
     ev ("st%d", c);
   }
   else
@@ -268,7 +269,7 @@ static void report (const char *echo)
           && 0 == conns[c].mc->write_buffer_append_offset - conns[c].mc->write_buffer_send_offset)
       { ev ("fin%d", c); conns[c].rep = 0; conns[c].kind = 1; }
     }
-    else if (conns[c].used && conns[c].rep && !conns[c].mc) conns[c].rep = 0;
+    else if (conns[c].used && conns[c].rep && !conns[c].mc && conns[c].started) conns[c].rep = 0;   /* freed (not: not yet started) */
   drain_clients ();
   printf ("%s ev=[%s]", echo, evbuf);
   evlen = 0; evbuf[0] = 0;
